@@ -14,7 +14,7 @@ FMT = ["matlab", "ascii", "tex", "binary"]
 KIND = ["Vector", "Matrix", "SymMatrix", "SparseMatrix"]
 SFX = [".mat", ".txt", ".tex", ".bin", ".xyz", ""]
 OPN = ["load", "save", "read_as", "write_as", "write_suffix", "info"]
-REPAIRED = 3      # cfg bits of the model variant that follows the current (repaired) code
+REPAIRED = 7      # cfg bits of the model variant that follows the current (repaired) code
 
 def env():
     e = dict(os.environ); e["OMP_NUM_THREADS"] = "1"; e["OPENBLAS_NUM_THREADS"] = "1"; return e
